@@ -353,9 +353,9 @@ const _: () = {
                     }
 
                     path.pop();
-                }
 
-                if let Some(exts) = self.omit_extensions.as_ref() {
+                /* what is left is the directory's path: an extension is omitted from file names only */
+                } else if let Some(exts) = self.omit_extensions.as_ref() {
                     for ext in exts.iter() {
                         if let Some(filename) = path.last().and_then(|p| p.strip_suffix(&format!(".{ext}"))) {
                             let filename_len = filename.len();
